@@ -290,7 +290,10 @@ def run(tier, seed, replay):
                 "coupling_operator) shipped to Lean, IsDiagonalisation residuals evaluated exactly "
                 "(must be < 1e-18 squared); a rejected operator counts as disagreement. "
                 "(2) rotated vs unrotated problems: real Tempo vs tempoState for both, and "
-                "model(rotated) = V model V† (the conclusion of `covariance`).")
+                "model(rotated) = V model V† (the conclusion of `covariance`); forced: decay channels with "
+                "complex Lindblad operators under a Haar basis change, nearly diagonal couplings.  "
+                "(3) always-run relations: guessed parameters do not depend on the basis; a process tensor "
+                "of a rotated problem contracted three times.")
     res.assumptions = ["LAPACK eigh returns an orthonormal eigenbasis: checked per run on the Bath's "
                        "output, not proved"]
     res.not_shown = ["covariance of mean-field TEMPO and PT-TEMPO is inherited through the shared kernels "
